@@ -35,10 +35,7 @@ Theorem C06_retry_or_return :
          | NPush _ (WRcuInto _ _) | NPush _ (WRcuRet _) => True
          | _ => False
          end
-    else match nx with
-         | NPush _ (WRcuNext c' _ q' _) => c' = c /\ q' = q
-         | _ => rcu_attempt_shape c q nx
-         end.
+    else (exists fs m', nx = NPush fs (WRcuNext c m' q dq)) \/ rcu_attempt_shape c q nx.
 Proof. exact rcu_after_cas. Qed.
 
 Print Assumptions C06_first_attempt_on_loaded_value.
